@@ -140,7 +140,12 @@ func registerIntrinsics(in *Interp) {
 	I[V+"ObserveBool"] = I[V+"ObserveStr"]
 	I[V+"ObserveStrs"] = I[V+"ObserveStr"]
 	I[V+"Setenv"] = func(in *Interp, fr *frame, a []Val) Val {
-		in.env[concStr(a[1])] = a[2].(Str)
+		val := a[2].(Str).norm()
+		// contract of the environment: a value cannot hold a NUL byte
+		for i := 0; i < val.Len(); i++ {
+			in.Assume(in.tt.Not(in.tt.Eq(in.strByte(val, i), in.tt.BV(8, 0))))
+		}
+		in.env[concStr(a[1])] = val
 		return nil
 	}
 	I[V+"Stdout"] = func(in *Interp, fr *frame, a []Val) Val {
